@@ -759,9 +759,70 @@ func c06MakeEnv(c *fw.Ctx) *c06Env {
 	return env
 }
 
+// c06FirstExtend: readers are already running when the FIRST Extend of the process
+// happens (a process has only one such moment: one child process per round, run under
+// the race detector). Nothing but the built-in tree has been used before.
+func c06FirstExtend(c *fw.Ctx, b fw.Batch) {
+	probe := []byte("VERIF-FIRST-EXTEND probe")
+	inputs := [][]byte{probe, []byte("{\"a\":1}"), []byte("<html><body>"), []byte("PK\x03\x04\x14\x00"), []byte("plain text")}
+	var wg sync.WaitGroup
+	stop := make(chan struct{})
+	var after, wrong int64
+	var extended int32
+	for g := 0; g < 8; g++ {
+		wg.Add(1)
+		go func(g int) {
+			defer wg.Done()
+			for i := 0; ; i++ {
+				select {
+				case <-stop:
+					return
+				default:
+				}
+				was := atomic.LoadInt32(&extended) == 1
+				var m *mimetype.MIME
+				switch g % 3 {
+				case 0:
+					m = mimetype.Detect(inputs[i%len(inputs)])
+				case 1:
+					m, _ = mimetype.DetectReader(bytes.NewReader(inputs[i%len(inputs)]))
+				default:
+					if lk := mimetype.Lookup("text/plain"); lk == nil || lk.Parent() == nil {
+						atomic.AddInt64(&wrong, 1)
+					}
+					m = mimetype.Detect(probe)
+				}
+				if was && i%len(inputs) == 0 && g%3 != 1 || was && g%3 == 2 {
+					atomic.AddInt64(&after, 1)
+					if !strings.HasPrefix(m.String(), "application/x-verif-first") {
+						atomic.AddInt64(&wrong, 1)
+					}
+				}
+			}
+		}(g)
+	}
+	time.Sleep(time.Duration(2+b.Idx%5) * time.Millisecond)
+	mimetype.Extend(func(raw []byte, _ uint32) bool { return bytes.HasPrefix(raw, []byte("VERIF-FIRST-EXTEND")) }, "application/x-verif-first", ".vf1")
+	atomic.StoreInt32(&extended, 1)
+	time.Sleep(20 * time.Millisecond)
+	close(stop)
+	wg.Wait()
+	c.Eval(1)
+	c.Count("first_extend_rounds", 1)
+	c.Count("detections_after_the_first_extend", atomic.LoadInt64(&after))
+	if w := atomic.LoadInt64(&wrong); w > 0 {
+		c.Violate("registered-format-not-found", "first-extend", fmt.Sprintf("%d detections of the probe that started after the first Extend of the process had returned did not report the new format (or Lookup returned a half-built node)", w), c06Payload{What: "first-extend", Procs: runtime.GOMAXPROCS(0)})
+	}
+	c.Distinct(fmt.Sprintf("first-extend|%d", b.Idx))
+}
+
 func c06Run(c *fw.Ctx, b fw.Batch) {
 	if b.Kind == "shared" {
 		c06SharedRun(c, b)
+		return
+	}
+	if b.Kind == "first-extend" {
+		c06FirstExtend(c, b)
 		return
 	}
 	procs := runtime.GOMAXPROCS(0)
@@ -783,7 +844,7 @@ func init() {
 	fw.Register(&fw.Prop{
 		ID:    "C06",
 		Level: "exploration",
-		Rule: "many short gated histories (14 goroutines, ~500 operations each): 2 SetLimit writers with values unique in the history, 3 Extend writers (package level, on text/plain and application/zip looked up by name, on an earlier extension) passing caller-owned alias slices of every shape (nil, exact capacity, spare capacity 1-8 with the caller reading its spare slots concurrently, two slices sharing one backing array), names partly with upper-case letters; readers: Detect / DetectReader through a yielding one-byte reader / DetectFile on probe inputs that reveal the newest extension of each parent and the limit used, ordinary limit-sensitive inputs (6 KiB JSON, CSV, NDJSON, text with a late binary byte, late-deciding GeoJSON), Lookup of names being registered plus accessor calls (String, Extension, Parent, Is) on shared nodes; extension detectors yield while the read lock is held. GOMAXPROCS in {2, 4, 16}. Shared-data batches: every corpus seed, signature variant and generated tar archive is detected as ONE slice by 6 goroutines at once (Detect and DetectReader; the slice sits in a read-only mapping in the plain build, so a write by the library faults; under the race detector a write is a race report) and every result must be the sequential one; then ONE returned value is walked (Parent chain, String, Extension, Is) by 6 goroutines at once and each must see the complete hierarchy. Race batches run under the race detector; all histories are checked with porcupine per partition (limit register incl. sequential table T[x][v], one extension register per parent, one set per name, and a two-level snapshot register: children of a sub-format plus a root-level format that captures their probe, written by one goroutine). " +
+		Rule: "many short gated histories (14 goroutines, ~500 operations each): 2 SetLimit writers with values unique in the history, 3 Extend writers (package level, on text/plain and application/zip looked up by name, on an earlier extension) passing caller-owned alias slices of every shape (nil, exact capacity, spare capacity 1-8 with the caller reading its spare slots concurrently, two slices sharing one backing array), names partly with upper-case letters; readers: Detect / DetectReader through a yielding one-byte reader / DetectFile on probe inputs that reveal the newest extension of each parent and the limit used, ordinary limit-sensitive inputs (6 KiB JSON, CSV, NDJSON, text with a late binary byte, late-deciding GeoJSON), Lookup of names being registered plus accessor calls (String, Extension, Parent, Is) on shared nodes; extension detectors yield while the read lock is held. GOMAXPROCS in {2, 4, 16}. First-Extend rounds: one child process per round (race build) in which 8 goroutines are already detecting / looking up when the first Extend of the process happens. Shared-data batches: every corpus seed, signature variant and generated tar archive is detected as ONE slice by 6 goroutines at once (Detect and DetectReader; the slice sits in a read-only mapping in the plain build, so a write by the library faults; under the race detector a write is a race report) and every result must be the sequential one; then ONE returned value is walked (Parent chain, String, Extension, Is) by 6 goroutines at once and each must see the complete hierarchy. Race batches run under the race detector; all histories are checked with porcupine per partition (limit register incl. sequential table T[x][v], one extension register per parent, one set per name, and a two-level snapshot register: children of a sub-format plus a root-level format that captures their probe, written by one goroutine). " +
 			"non-trivial (informative) = at least one write overlapped a read in real time and the readers saw >= 3 distinct values; distinct = distinct (GOMAXPROCS, overlap bucket, number of distinct values read).",
 		Assumptions: []string{
 			"the limit and the tree are read at two instants, so they are checked as independent registers (a single common instant would alarm on correct code)",
@@ -806,6 +867,13 @@ func init() {
 			if tier == "thorough" {
 				ns = 12
 			}
+			nf := 6
+			if tier == "thorough" {
+				nf = 40
+			}
+			for i := 0; i < nf; i++ {
+				bs = append(bs, fw.Batch{Name: fmt.Sprintf("first-extend-%d", i), Kind: "first-extend", Idx: 30 + i, N: 1, Race: true, TimeoutS: 600, Env: []string{fmt.Sprintf("GOMAXPROCS=%d", []int{4, 8, 16}[i%3])}})
+			}
 			bs = append(bs, fw.Batch{Name: "shared-race", Kind: "shared", Idx: 20, N: ns, Race: true, TimeoutS: 3000, Env: []string{"GOMAXPROCS=8"}})
 			bs = append(bs, fw.Batch{Name: "shared-plain", Kind: "shared", Idx: 21, N: 2 * ns, TimeoutS: 3000, Env: []string{"GOMAXPROCS=8"}})
 			return bs
@@ -826,6 +894,11 @@ func init() {
 				for i := 0; i < 200 && c.NViol() == 0; i++ {
 					c06SharedCase(c, sp.In, sp.Limit, false, sp.Procs)
 				}
+				return
+			}
+			if p.What == "first-extend" {
+				fmt.Println("the first Extend of a process happens once: re-run the check (race build) to reproduce")
+				c06FirstExtend(c, fw.Batch{Idx: 1})
 				return
 			}
 			fmt.Println("schedules are not deterministic: the history with the recorded seed is re-run 30 times")
